@@ -178,3 +178,22 @@ package ecs
 //@   loop 1 invariant count: *epAlive(&s.entityPool) == old(*epAlive(&s.entityPool)) + uint64(__idx)
 //@   ensures  pool: poolInv(&s.entityPool) && poolPtrOK(&s.entityPool)
 //@   ensures  count: *epAlive(&s.entityPool) == old(*epAlive(&s.entityPool)) + uint64(count)
+
+// storage.Reset (C16): the world is empty and reusable afterwards -- the entity index and the
+// target flags are cut back to the reserved entries, the entity pool is empty (nothing issued is
+// alive, creations minus removals is zero), no lock bit is held, no observer is registered, no
+// filter is registered and formerly registered filters are marked unregistered.
+// Not stated: that every table is emptied (archetype.Reset has a frame-only contract).
+//@ func (*storage).Reset
+//@   serves C16
+//@   requires poolInv(&s.entityPool) && s.observers != nil && obsResetInv(s.observers) && len(s.locks.bitPool.bits) == 64
+//@   requires len(s.entities) >= int(reservedEntities) && len(s.isTarget) >= int(reservedEntities)
+//@   requires len(s.cache.indices) == len(s.cache.filters) && (forall k int :: 0 <= k && k < len(s.cache.filters) ==> s.cache.filters[k].filter != nil)
+//@   requires forall i int :: 0 <= i && i < len(s.archetypes) ==> s.archetypes[i].archetypeData != nil
+//@   loop 1 invariant archs: len(s.archetypes) == old(len(s.archetypes)) && (forall i int :: 0 <= i && i < len(s.archetypes) ==> s.archetypes[i].archetypeData != nil)
+//@   ensures  index: len(s.entities) == int(reservedEntities) && len(s.isTarget) == int(reservedEntities)
+//@   ensures  pool: poolInv(&s.entityPool) && *epAlive(&s.entityPool) == 0 && s.entityPool.available == 0 && (forall h Entity :: !epIssued(&s.entityPool)[h])
+//@   ensures  unlocked: forall i uint8 :: !m64has(s.locks.locks, i)
+//@   ensures  observers: forall e int :: 0 <= e && e < 256 ==> !s.observers.hasObservers[e] && len(s.observers.observers[e]) == 0
+//@   ensures  cache: len(s.cache.filters) == 0 && len(s.cache.indices) == 0
+//@   ensures  unregistered: forall k int :: 0 <= k && k < old(len(s.cache.filters)) ==> old(s.cache.filters[k].filter).cache == maxCacheID
